@@ -418,8 +418,9 @@ def parent_main(a):
     if violations:
         return 1
     if errors:
-        for e in errors:
-            eprint("MACHINERY ERROR:", e)
+        eprint("MACHINERY ERROR:", errors[0])
+        for e in errors[1:]:
+            eprint("MACHINERY ERROR (further):", e.strip().splitlines()[0][:200], "...", e.strip().splitlines()[-1][:200])
         return 2
     if degenerate:
         for d in degenerate:
